@@ -13,6 +13,7 @@ import GB.C05.Spec
              req = l | s:<name> | f:<name>      ans = L:<hex,…> | F:<id,…> | G:<id,…> | eNN | rNN | oN
              id  = file name (own file) or @k (k-th alien file)
              result = ok:<file,…>#<svc;…> | none | err:<code>
+             (in a delivered method a type name ends in "?" when its descriptor is a placeholder)
 
   The model is run with the observed answers as its policy and the observed request order as its
   schedule; it has to issue exactly the observed requests and reach the observed outcome (else DIFF).
@@ -322,7 +323,16 @@ def depthFits (cfg : Cfg) (own : List DFile) (listed : List Name) : Bool :=
 
 def servicesPart (result : String) : String := (splitFirst "#" result).2
 
-/-- success must be exact: names, content, closed file set -/
+/-- which clause of `wfFilesB` a descriptor set breaks -/
+def inconsistency (fs : List DFile) : String :=
+  if !nodupB (fileNames fs) then "duplicate file name"
+  else if !closedB fs then "an imported file is missing"
+  else if !acyclicB fs then "import cycle"
+  else if !nodupB (symbols fs) then "a symbol is declared twice"
+  else if !typesResolveB fs then "a method's input/output type is defined in no visible file"
+  else "consistent"
+
+/-- success must be exact: names, content, closed consistent file set -/
 def judgeSuccess (inp : Input) (s : StreamTr) (result : String) : Option String :=
   let body := (result.drop 3).toString      -- after "ok:"
   let (filesS, svcsS) := splitFirst "#" body
@@ -334,7 +344,12 @@ def judgeSuccess (inp : Input) (s : StreamTr) (result : String) : Option String 
     let regFiles := ret.filter (fun f => f.name ∈ delivered)
     let expect := names.map fun n =>
       if inp.cfg.onlyServices then ({ name := n, methods := [] } : Service) else contractOf regFiles n
-    if ";".intercalate (expect.map showService) ≠ svcsS then
+    -- "an inconsistent or incomplete descriptor set produces an error report, never a partial description"
+    if svcsS.any (· == '?') then
+      some "partial-description: a method's input/output type is a placeholder (defined in no delivered file)"
+    else if !inp.cfg.onlyServices && !wfFilesB regFiles then
+      some s!"partial-description: delivered although the descriptor set is inconsistent ({inconsistency regFiles})"
+    else if ";".intercalate (expect.map showService) ≠ svcsS then
       some s!"services differ from the target's descriptors: want {";".intercalate (expect.map showService)}"
     else if !nodupB delivered then some "duplicate file in the delivered registry"
     else if !(delivered.all fun d => d ∈ fileNames ret) then some "delivered file was never sent by the target"
